@@ -3,11 +3,11 @@ from ..core import Script, Rng
 from ..stage import LineStage, replay_line
 from .common import *
 
-ARTEFACTS = ["G1-consts", "G2-rs-portable", "G8-chunkstate"]
-EXTRA_PROPS = [("B3.Props.C02T", "B3/Props/C02T.lean")]   # theorems about the code translated from the sources
+ARTEFACTS = ["G1-consts", "G4-listings", "G2-rs-portable", "G8-chunkstate"]
+EXTRA_PROPS = [("B3.Props.Surface", "B3/Props/Surface.lean"), ("B3.Props.C02T", "B3/Props/C02T.lean")]   # theorems about the code translated from the sources
 RULE = ("prefix . reset . suffix histories: prefixes contain partial chunks, deep stacks (2^k+1 chunks), hazmat offsets, finalize "
         "calls; the reset is Hasher::reset or, through the trait impls, Reset::reset / finalize_fixed_reset / finalize_xof_reset; after reset the same suffix is run on the reset hasher and on a fresh one of the same mode and every output compared "
-        "(and both with the model/spec); clone-then-diverge histories incl. Clone::clone_from into a hasher that has its own history (deep stack); non-trivial = prefix absorbed input or set an offset; "
+        "(and both with the model/spec); clone-then-diverge histories incl. Clone::clone_from into a hasher that has its own history (deep stack) and into one built with a different key or mode; non-trivial = prefix absorbed input or set an offset; "
         "distinct = distinct script")
 ASSUMPTIONS = []
 NOT_PROVED = []
@@ -74,6 +74,7 @@ def stages(tier, seed, witness_search=False):
     if witness_search:
         n *= 4
     scripts = [reset_script(rng, PLATFORMS[i % 5]) for i in range(n)] + [clone_script(rng, PLATFORMS[i % 5]) for i in range(n // 2)]
+    scripts += [cross_mode_clone_script(rng, PLATFORMS[i % 5]) for i in range(40 if tier == "quick" else 600)]
     return [LineStage("reset-clone", scripts)]
 
 
